@@ -5,7 +5,8 @@ from .. import timers
 EXPLANATION = ("C08: linear forms of elapsed (now - start), remaining (stop - now), expired (now - stop >= 0), duration, "
                "start (stop = start + duration, default duration kept, start = given or now) and restart (new start = "
                "old stop) for Tymer, Timer, MonoTimer, AsyncTimer, each against its own clock read; MonoTimer.latest "
-               "shifts _start,_stop,_last together on a backward jump.")
+               "shifts _start,_stop,_last together on a backward jump; MonoTimer.elapsed/expired evaluate the side-effecting getter "
+               ".latest before they read the attributes it shifts (evaluation order).")
 ASSUMPTIONS = ["floating point rounding is not decided", "formulas are compared as normalised linear forms, not text"]
 
 
@@ -25,6 +26,11 @@ def check(run):
         run.ob("C08.R2", "hio.help.timing:MonoTimer.%s" % name, ok, site, what, tr)
     run.floor("C08.R1", 36)
     run.floor("C08.R2", 3)
+    facts, written = timers.getter_order_facts(run)
+    run.extra["attributes_rewritten_by_MonoTimer.latest"] = written
+    for name, ok, site, what in facts:
+        run.ob("C08.R3", "hio.help.timing:MonoTimer.%s" % name, ok, site, what)
+    run.floor("C08.R3", 2)
 
 
 T, H = "hio.base.tyming", "hio.help.timing"
@@ -39,6 +45,8 @@ MUTANTS = [
     Mutant("timer-default-duration-zero", H, "Timer.start", "if duration is not None else self.duration", "if duration is not None else 0.0", {"C08.R1"}),
     Mutant("mono-latest-no-stop-shift", H, "MonoTimer.latest", "                self._stop += delta\n", "", {"C08.R2"}, canary=True),
     Mutant("mono-latest-last-only-when-forward", H, "MonoTimer.latest", "        self._last += delta\n", "        if delta >= 0:\n            self._last += delta\n", {"C08.R2"}),
+    Mutant("mono-expired-stop-read-first", H, "MonoTimer.expired", "self.latest >= self._stop", "self._stop <= self.latest", {"C08.R3"}, canary=True),
+    Mutant("mono-elapsed-start-read-first", H, "MonoTimer.elapsed", "(self.latest - self._start)", "-(self._start - self.latest)", {"C08.R3"}),
     Mutant("silent-elapsed-negated", T, "Tymer.elapsed", "(self.tyme - self._start)", "-(self._start - self.tyme)", silent=True),
     Mutant("silent-expired-flipped", H, "Timer.expired", "time.time() >= self._stop", "self._stop <= time.time()", silent=True),
 ]
